@@ -446,11 +446,8 @@ def prop_spec(case):
     assert len(set(labels)) == len(labels), "generator: duplicate labels"
     programmatic = Parameters({kw["label"]: Parameter(**kw) for kw in kwargs})
     expected = snapshot(programmatic)
-    # the reference itself has to honour the expressions (harness evaluator, declaration order)
-    ref_values = {e["label"]: e["value"] for e in expected}
-    for e in expected:
-        if e["expression"] is not None:
-            assert close(e["value"], G.evaluate(trees[e["label"]], ref_values), 1, EXPR_RTOL, 0.0), f"reference construction: {e}"
+    # expected values of expression parameters are never taken from the programmatic object: ``compare`` recomputes
+    # them with the harness evaluator from the loaded values (declaration order)
     fragile = has_fragile_sci(case)
 
     def clause(front, what):
